@@ -108,6 +108,8 @@ var c04Mutants = []Mutant{
 }
 
 func runC04(p *chk.Prog, r *chk.Report) {
+	// the nodes an advertisement selects are those any one of its selectors matches (SELECT, shared with C08)
+	c08Select(p, r)
 	// an advertisement is dropped as a duplicate only of one with the same node set (ADV-DEDUP, shared with C08, C12)
 	c08Dedup(p, r)
 	// the advertisements applied are those of the pool that owns the addresses now (POOL-CURRENT, shared with C09)
@@ -129,6 +131,8 @@ func runC04(p *chk.Prog, r *chk.Report) {
 }
 
 func runC12(p *chk.Prog, r *chk.Report) {
+	// the nodes' availability the election reads is the current one: a node update is stored and re-evaluated (RESYNC, shared with C09)
+	c09Resync(p, r)
 	// advertisements attached to a pool are de-duplicated by equality, not by inclusion (ADV-DEDUP, shared with C08)
 	c08Dedup(p, r)
 	handlerReadonlyRule(p, r)
